@@ -214,7 +214,7 @@ def mutating_calls(prog, fn):
     return out
 
 
-def mutation_between(prog, fn, def_block, use_block, avoid_header=None):
+def mutation_between(prog, fn, def_block, use_block, avoid_header=None, redef_blocks=frozenset()):
     """a state-mutating call that can execute after def_block's end and before use_block"""
     b = fn.body
     cfg = b.cfg
@@ -231,7 +231,9 @@ def mutation_between(prog, fn, def_block, use_block, avoid_header=None):
             continue        # the defining call itself (or earlier in the same block)
         if mb == use_block:
             continue        # at the end of the use block: after the read
-        if mb in between and cfg.paths_avoiding(def_block, mb, {use_block}) and cfg.paths_avoiding(mb, use_block, {def_block}):
+        if mb in redef_blocks:
+            continue        # this call is itself a gate that redefines the cursor: what was gated before is dead after it
+        if mb in between and cfg.paths_avoiding(def_block, mb, {use_block}) and cfg.paths_avoiding(mb, use_block, {def_block} | set(redef_blocks)):
             return m
     return None
 
@@ -321,7 +323,7 @@ def gate_summary(prog, fn):
     return res
 
 
-def gated_index(prog, fn, idx, use_block, _seen=None):
+def gated_index(prog, fn, idx, use_block, _seen=None, _redef=None):
     """(ok, why) : does every definition of idx come from a gate call with fn's own time parameter,
     with no state change before use_block?"""
     idx = strip(idx)
@@ -331,8 +333,22 @@ def gated_index(prog, fn, idx, use_block, _seen=None):
         return True, ''
     _seen.add(idx.id)
     if idx.kind == 'phi':
+        if _redef is None:
+            # the blocks in which the cursor is (re)defined by a gate call
+            _redef = set()
+            stack = [idx]
+            seen2 = set()
+            while stack:
+                x = strip(stack.pop())
+                if x is None or x.id in seen2:
+                    continue
+                seen2.add(x.id)
+                if x.kind == 'phi':
+                    stack.extend(x.args)
+                elif x.kind == 'call' and x.point:
+                    _redef.add(x.point[0])
         for a in idx.args:
-            ok, why = gated_index(prog, fn, a, use_block, _seen)
+            ok, why = gated_index(prog, fn, a, use_block, _seen, _redef)
             if not ok:
                 return False, why
         return True, ''
@@ -348,7 +364,7 @@ def gated_index(prog, fn, idx, use_block, _seen=None):
         own = own_time_param(fn, targ) if targ is not None else None
         if own is None:
             return False, 'gate %s is called with %s instead of the operation\'s own time' % (tgt.name, show(targ, 3))
-        m = mutation_between(prog, fn, idx.point[0], use_block)
+        m = mutation_between(prog, fn, idx.point[0], use_block, redef_blocks=frozenset((_redef or set()) - {idx.point[0]}))
         if m is not None:
             return False, 'state-changing call %s can run between the gate and the exposure' % (m.callee_name())
         return True, ''
